@@ -126,7 +126,10 @@ def slice_write(ctx, prog):
 
 def cursor_tables(ctx, prog):
     n = 0
+    has_alloc = prog.feature('alloc') or prog.feature('std')
     for path in CURSORS:
+        if 'Box<' in path and not has_alloc:
+            continue      # Cursor<Box<[u8]>> exists only with feature `alloc`
         inst = prog.one(path)
         if inst is None:
             ctx.fail_closed('T-CURSOR', path + ' not found')
@@ -188,7 +191,7 @@ def cursor_tables(ctx, prog):
             ctx.ok('T-CURSOR.writers', w, nontrivial=False)
         else:
             ctx.violation('T-CURSOR.writers', w, 'Cursor position is written outside the Write impls')
-    ctx.floor('T-CURSOR', 'cursor impls', n, 3)
+    ctx.floor('T-CURSOR', 'cursor impls', n, 3 if has_alloc else 2)
 
 
 def is_encode_root(i):
